@@ -796,8 +796,12 @@ impl FixtureDatabase {
 
                 // Continue counting on subsequent lines up to cursor.
                 // Skip when i == cursor_idx since (i + 1)..=cursor_idx would panic.
-                if i < cursor_idx {
-                    for line in &lines[(i + 1)..=cursor_idx] {
+                // A call that is already balanced on a line *before* the cursor line is
+                // complete: parentheses opened later (e.g. an unfinished `def f(` further
+                // down) do not belong to it.
+                let mut closed_before_cursor = depth <= 0 && i < cursor_idx;
+                if i < cursor_idx && !closed_before_cursor {
+                    for (offset, line) in lines[(i + 1)..=cursor_idx].iter().enumerate() {
                         for ch in line.chars() {
                             if ch == '(' {
                                 depth += 1;
@@ -806,11 +810,15 @@ impl FixtureDatabase {
                                 depth -= 1;
                             }
                         }
+                        if depth <= 0 && i + 1 + offset < cursor_idx {
+                            closed_before_cursor = true;
+                            break;
+                        }
                     }
                 }
 
                 // If depth > 0, we're inside the unclosed usefixtures call
-                if depth > 0 {
+                if depth > 0 && !closed_before_cursor {
                     return Some(CompletionContext::UsefixturesDecorator);
                 }
 
